@@ -81,6 +81,10 @@ class TaskFailure(Exception):
     pass
 
 
+# what a failing task function raises (by its key): user code fails in all sorts of ways, all of them subclasses of Exception
+EXC_TYPES = [TaskFailure, OSError, FileNotFoundError, KeyError, ValueError, ZeroDivisionError, RuntimeError, AssertionError, IOError, PermissionError, TimeoutError, StopIteration]
+
+
 def _logged(f):
     name = f.__name__
 
@@ -94,7 +98,8 @@ def _logged(f):
                     FAULTS[k] = (kind, left - 1)
                 CALLS.append(('X', name, k, _w(), kind))
                 if kind == 'exc':
-                    raise TaskFailure('planned failure of task %r' % (k,))
+                    cls = EXC_TYPES[k % len(EXC_TYPES)] if isinstance(k, int) else TaskFailure
+                    raise cls('planned failure of task %r' % (k,))
                 if kind == 'sysexit':
                     raise SystemExit(1)
                 if kind == 'kbdint':
